@@ -11,6 +11,7 @@ structure St where
   hist : History := []
   ends : List (Nat × Nat) := []
   doc : Option (List (Xref.Section × Trailer)) := none
+  items : List Item := []
 
 def hexNat (s : String) : Option Nat :=
   s.toList.foldl (fun acc c => match acc, hexVal c with
@@ -225,6 +226,31 @@ def step (st : St) (line : String) : St × String :=
     match csvNat w, (if rows == "-" then some [] else (rows.splitOn ",").mapM parseRow) with
     | some [w1, w2, w3], some rows => (st, hexOrDash (encodeRows w1 w2 w3 rows))
     | _, _ => (st, "bad-op")
+  | ["item", "l", h] =>
+    match bytesOfHex h with
+    | some b => ({ st with items := st.items ++ [.line b] }, "ok")
+    | none => (st, "bad-op")
+  | ["item", "o", n, g, hl, body] =>
+    match n.toNat?, g.toNat?, bytesOfHex hl, bytesOfHex body with
+    | some n, some g, some hl, some body => ({ st with items := st.items ++ [.obj n g hl body] }, "ok")
+    | _, _, _, _ => (st, "bad-op")
+  | ["q.itemsok"] =>
+    -- hypothesis of C02_fallback for this file: body = items, rest = tail starting with the trailer line
+    let ends := st.ends.filterMap (fun (p, e) =>
+      match lookupNat st.objs p with
+      | some (_, _, v) => some (p, e, v)
+      | none => none)
+    let body := itemsBytes st.items
+    let tail := st.data.drop body.length
+    let okBytes := st.data.take body.length == body
+    let okTail := match takeLine tail with
+      | some (l, _) => startsWith l kwTrailer
+      | none => false
+    let spec := scanSpec 0 st.items []
+    let agree := match fallbackLoad st.data ends with
+      | .ok (offs, tp) => offs == spec && tp == some body.length
+      | .error _ => false
+    (st, s!"{itemsOKb ends 0 st.items tail} {okBytes} {okTail} {agree}")
   | ["q.fallback"] =>
     let ends := st.ends.filterMap (fun (p, e) =>
       match lookupNat st.objs p with
